@@ -1,4 +1,5 @@
 import Dmn.Lemmas.LalrProgress
+import Dmn.Lemmas.LalrStack
 import Dmn.Lemmas.LexerProgress
 import Dmn.Lemmas.EvalNoPanic
 
@@ -11,11 +12,15 @@ regenerated from the current `lalr.rs`.  All statements are for every input text
 position, every scope key set, every flag setting, every token sequence and every number of
 loop iterations.
 
-Not proved here (validated by the child-process runner of `harness/src/c05.rs` only): the depth
-of the parser's stacks at a reduction (`yy_state_stack[len - 1]`, `yy_value_stack[len - k]`,
-the `ok_or_else` pops of the reduce actions) — it rests on the LR invariant, which needs the
-automaton's item sets —, termination of the driver loop as a whole, stack overflow, abort,
-allocation failure and wall-clock time.
+The depth of the *state* stack at a reduction (`yy_state_stack[len - 1]`, parser.rs:276) is proved
+too (`lalr_stack_nonempty`): the LR invariant is decided on the tables with a predecessor witness
+that `translate/lalr.py` computes from them (`lalr_stack_ok`), so `lalr_no_panic` leaves no panic
+site of the loop open.
+
+Not proved here (validated by the child-process runner of `harness/src/c05.rs` only): the depth of
+the value and node stacks inside the reduce actions (`yy_value_stack[len - k]`, the `ok_or_else`
+pops — these return `Err`, they do not panic), termination of the driver loop as a whole, stack
+overflow, abort, allocation failure and wall-clock time.
 -/
 
 namespace Dmn.Lalr
@@ -36,7 +41,7 @@ discriminants, every oracle for the reduce actions and every number of iteration
 loop never makes an out-of-bounds access to `YY_PACT`, `YY_TRANSLATE`, `YY_CHECK`, `YY_TABLE`,
 `YY_DEF_ACT`, `YY_R2`, `YY_R1`, `YY_P_GOTO`, `YY_DEF_GOTO`, never underflows
 `YY_R1[n] - YY_N_TOKENS` and never overflows an `i16` addition.  The only panic the model can
-still report is the empty state stack at parser.rs:276 (LR invariant, validated only). -/
+still report is the empty state stack at parser.rs:276 — excluded by `lalr_stack_nonempty`. -/
 theorem lalr_index_safe (act : Nat → Int → Bool) (fuel : Nat) (toks : List LexRes)
     (hcodes : ∀ c, LexRes.tok c ∈ toks → c ∈ Dmn.Gen.Lalr.TOKEN_TYPE_CODES) (s : Site)
     (h : parse gen act fuel toks = .panic s) : s = .stackTop := by
@@ -51,6 +56,36 @@ theorem lalr_index_safe (act : Nat → Int → Bool) (fuel : Nat) (toks : List L
 -- non-vacuity: `1 + 1` (StartExpression Numeric Plus Numeric) is accepted by the model
 example : parse gen (fun _ _ => true) 200 [.tok 258, .tok 287, .tok 304, .tok 287] = .accept := by
   decide +kernel
+
+/-- `lalr_stack_ok`: the predecessor witness regenerated with the tables is closed under every
+shift and every reduction the tables allow (`stackOk`, Dmn/Model/LalrStack.lean): walking back
+the length of a rule from any state that can reduce it never reaches the bottom state early,
+and the goto from every state so uncovered is a recorded edge. -/
+theorem lalr_stack_ok : stackOk gen Dmn.Gen.Lalr.PREDS = true := by decide +kernel
+
+/-- `lalr_stack_nonempty` (the LR invariant): for every sequence of lexer answers — tokens of any
+code, errors —, every oracle for the reduce actions and every number of iterations, the state
+stack is not empty when its top is read after the right-hand side of a rule has been popped
+(parser.rs:276): the stack is at all times a path `0 → s₁ → … → s_k` of the automaton. -/
+theorem lalr_stack_nonempty (act : Nat → Int → Bool) (fuel : Nat) (toks : List LexRes) :
+    parse gen act fuel toks ≠ .panic .stackTop :=
+  run_stack (tablesOK_of gen lalr_tables_ok) (stackOK_of gen _ lalr_stack_ok) act fuel _ _
+    (sinv_init gen _ toks)
+
+/-- `lalr_no_panic`: the driver loop has no panic left — no table access out of bounds, no
+arithmetic overflow, no empty state stack — whatever the lexer answers (with `TokenType` codes)
+and whatever the reduce actions do. -/
+theorem lalr_no_panic (act : Nat → Int → Bool) (fuel : Nat) (toks : List LexRes)
+    (hcodes : ∀ c, LexRes.tok c ∈ toks → c ∈ Dmn.Gen.Lalr.TOKEN_TYPE_CODES) (s : Site) :
+    parse gen act fuel toks ≠ .panic s := by
+  intro h
+  have := lalr_index_safe act fuel toks hcodes s h
+  subst this
+  exact lalr_stack_nonempty act fuel toks h
+
+-- non-vacuity: the witness has a row for every state, and the final state has predecessors
+example : Dmn.Gen.Lalr.PREDS.length = Dmn.Gen.Lalr.YY_PACT.length ∧
+    (predsOf Dmn.Gen.Lalr.PREDS Dmn.Gen.Lalr.YY_FINAL).length > 0 := by decide +kernel
 
 /-- `lalr_step_progress`: from `Action::NewState`, within at most three iterations of the loop
 the parser has stopped, or has completed exactly one shift or one reduction and is back at
